@@ -72,6 +72,20 @@ def special_models():
                                                        Mx([(Sx('f'), ('s', 'float', '1.5')), (Sx('u'), Ix('1')),
                                                            (Sx('d'), ('s', 'timestamp', '2001-01-01')), (Sx('o'), ('s', 'timestamp', '2001-01-01'))])]}],
                               'root': ('cls', 'K')}))
+    # tagged scalars below untyped positions (the tag is ignored, whether the scalar is quoted then decides its type:
+    # the emitter writes a tagged scalar quoted), and own-class tags on scalars of string-like classes and enums
+    tg = lambda t, v: ('s', t, v)      # noqa
+    out.append(('tagged-scalars', {'classes': B + [{'name': 'K', 'params': [('a', 'any'), ('b', 'any', None), ('u', 'untyped', None)], 'extra': True,
+                                                    'docs': [Mx([(Sx('a'), tg('!Other', '12')), (Sx('b'), tg('!Other', '12')), (Sx('u'), tg('!Other', '12')),
+                                                                 (Sx('zz'), tg('!Other', '12'))]),
+                                                             Mx([(Sx('a'), tg('!x', 'true')), (Sx('b'), ('q', 'seq', [tg('!x', 'true'), tg('!x', '')]))])]}],
+                                   'root': ('cls', 'K')}))
+    out.append(('tagged-scalars', {'classes': B, 'root': ('list', 'any'),
+                                   }))
+    out.append(('tagged-scalars', {'classes': B + [{'name': 'K', 'params': [('s', ('cls', 'S')), ('e', ('cls', 'E')), ('l', ('list', ('cls', 'S')), None)],
+                                                    'docs': [Mx([(Sx('s'), tg('!S', '007')), (Sx('e'), tg('!E', 'red')),
+                                                                 (Sx('l'), ('q', 'seq', [tg('!S', '007'), tg('!S', 'true')]))])]}],
+                                   'root': ('cls', 'K')}))
     # nested sharing at differently typed places: base: &x {name: foo} / first: &y {inner: *x} / second: *y
     na = {'name': 'Na', 'params': [('name', 'str')]}
     nb = {'name': 'Nb', 'params': [('name', 'path')]}
